@@ -195,14 +195,30 @@ def _int_leaf_paths(desc):
     return [p for p in G.int_paths(cls) if isinstance(G.get_at(desc["args"], p), int)]
 
 
-def _imm_alias(desc, data, p, d, widths=(0, 8, 16, 32, 64)):
+def _bits_dropped(v, d):
+    """d is v with bits dropped: the low `lo` bits cleared and the result reduced to `hi` bits, read
+    as unsigned or sign-extended (the wrap / truncation / alignment-mask model of KF1)."""
+    for lo in range(0, 5):
+        t0 = (v >> lo) << lo
+        for hi in range(lo + 1, 66):
+            t = t0 & ((1 << hi) - 1)
+            if d == t or (t >> (hi - 1) and d == t - (1 << hi)):
+                return True
+    return False
+
+
+def _imm_alias(desc, data, p, d, widths=(0, 8, 16, 32, 64), strict=False):
     """The decoded immediate d (or d - 2^w: normalised x86 values are reduced modulo the operand
-    width) is accepted by ppci in place of a printed operand and yields the identical bytes."""
+    width) is accepted by ppci in place of a printed operand and yields the identical bytes.
+    strict (round-2 targets): the accepted value must also be the printed one with bits dropped --
+    two unrelated values that encode alike (#8 and #-1 of a constant generator) are no alias."""
     for path in _int_leaf_paths(desc):
         v = G.get_at(desc["args"], path)
         for w in widths:
             for cand in ((d,) if w == 0 else (d - (1 << w), d + (1 << w))):
                 if cand == v:
+                    continue
+                if strict and not _bits_dropped(v, cand):
                     continue
                 nd = dict(desc, args=G.set_at(desc["args"], path, cand))
                 if _final(nd) == data:
@@ -343,10 +359,10 @@ def explain(desc, text, data, diff, dec=None):
                     return KF_THUMB_HALF
             if fam == "arm" and (x[1], y[1]) == (0, 32) and _has_ctor(desc["args"], ("ShiftLsr", "ShiftAsr"), 0):
                 return KF_ARM_SHIFT0
-            if _imm_alias(desc, data, x[1], y[1]) or _truncated(_printed_ints(desc), y[1]):
+            if _imm_alias(desc, data, x[1], y[1], strict=target in TARGETS_R2) or _truncated(_printed_ints(desc), y[1]):
                 return KF_IMM_ALIAS
         if x[0] == "a" and y[0] == "a" and x[1:3] == y[1:3] and isinstance(x[3], int) and isinstance(y[3], int):
-            if _imm_alias(desc, data, x[3], y[3], widths=(0, 8, 16, 32)) or _truncated(_printed_ints(desc), y[3]):
+            if _imm_alias(desc, data, x[3], y[3], widths=(0, 8, 16, 32), strict=True) or _truncated(_printed_ints(desc), y[3]):
                 return KF_IMM_ALIAS
         if x[0] == "m" and y[0] == "m" and x[1:4] == y[1:4]:
             if _imm_alias(desc, data, x[4], y[4], widths=(0, 64)) or _truncated(_printed_ints(desc), y[4]):
@@ -506,6 +522,7 @@ def class_exclusion(target, cid):
 def _worker(arg):
     target, k, nchunks, seed, per_target = arg
     stats = Stats()
+    L.CRASHES.clear()  # counts inherited from the parent (witness replays) are not this shard's
     fails = []
     open_ids = open_finding_ids(PID)
     allc = [cid for cid, cls in G.instruction_classes(target)]
@@ -600,7 +617,10 @@ def _worker(arg):
             # cross-check of vf/m68kdec.py on everything llvm-mc decodes as well
             stats.hist["m68k/own decoder %s" % _m68k_crosscheck(data, dec)] += 1
         nt = G.has_operands(desc)
-        stats.case(G.key_of(desc), nt and st != "unverifiable", {"case": desc, "text": text, "bytes": data.hex()} if st == "ok" and nt else None,
+        # one written-out sample per target (first shard), so that the six evidence samples span targets
+        want = st == "ok" and nt and k == 0 and not stats.samples and len(desc["args"]) >= 2
+        stats.case(G.key_of(desc), nt and st != "unverifiable",
+                   {"case": desc, "text": text, "bytes": data.hex(), "decoded": "; ".join(t.replace("\t", " ") for t, _ in dec)} if want else None,
                    classes=("%s/%s" % (target, st if st != "unverifiable" else "unverifiable:" + detail),))
         if st == "fail":
             kf = explain(desc, text, data, diff, dec)
@@ -621,7 +641,8 @@ def run(ctx):
         nchunks = 4 if target == "x86_64" else (1 if target == "mips" else 2)
         for k in range(nchunks):
             tasks.append((target, k, nchunks, subseed(ctx.seed, PID, target, k), per_target))
-    tasks.sort(key=lambda t: 0 if t[0] == "x86_64" else 1)
+    # x86-64 first (longest shards), then the round-2 targets (short), then the rest
+    tasks.sort(key=lambda t: 0 if t[0] == "x86_64" else (1 if t[0] in TARGETS_R2 else 2))
     ctx.pmap(_worker, tasks)
     ctx.extra["targets_covered"] = list(TARGETS)
     ctx.extra["targets_not_covered"] = ["or1k", "xtensa", "microblaze", "stm8", "mcs6500 (no reference decoder)"]
